@@ -22,7 +22,7 @@ Fixpoint covered_run (c : config) (a : astate) (m : omap) (tr : list (op * obs))
   | [] => true
   | (o, x) :: r =>
       caller_ok a o && no_overflow m o && shape2 o &&
-      match mon_step_gen false c a m o x with
+      match mon_step_gen ck_core c a m o x with
       | inl (a', m') => covered_run c a' m' r
       | inr _ => true
       end
@@ -130,15 +130,21 @@ Proof.
   apply in_map_iff. exists (x, sy). split; [|exact Iy]. cbn. unfold entry_of. destruct (get (scopes st') x); reflexivity.
 Qed.
 
-(* the monitor's choice among several candidates *)
-Lemma mon_step_accepts_pick : forall c a a' m m' o x pre post,
+(* the monitor's choice among several candidates; the three extra checks are
+   hypotheses here, needed only when switched on *)
+Lemma mon_step_accepts_ck : forall ck c a a' m m' o x pre post,
   cfg_ok c -> astep c a o (o_cls x) (o_aflag x) = pre ++ a' :: post ->
   m' = apply_delta m (o_delta x) ->
   (exists sm, Inv c sm a' /\ forall t, ostat m' t = use_of sm t) ->
   (forall cand, In cand pre -> exists t, In t (map fst m') /\ ostat m' t <> usage_A cand t) ->
-  mon_step_gen false c a m o x = inl (a', m').
+  (ck_prio ck = true -> forall t sz prio, o = OReserve t sz prio -> o_cls x = 0 -> forall y, In y (areach a' t) ->
+     l_mem (a_limit c a' y) = max_int64 \/ mem (ostat m' y) <= prio_threshold (a_limit c a' y) prio) ->
+  (ck_just ck = true -> o_cls x = 1 -> refusal_justified c a m o = true) ->
+  (ck_cap ck = true -> forall i inb fd ip, o = OOpenConn i inb fd (Some ip) -> o_cls x = 0 ->
+     cap_ok c (open_ips a' false) ip = true) ->
+  mon_step_gen ck c a m o x = inl (a', m').
 Proof.
-  intros c a a' m m' o x pre post LO Ha Em (sm & I & L) Hpre. unfold mon_step_gen. rewrite Ha, <- Em.
+  intros ck c a a' m m' o x pre post LO Ha Em (sm & I & L) Hpre Hprio Hjust Hcap. unfold mon_step_gen. rewrite Ha, <- Em.
   assert (Hu : forall t, ostat m' t = usage_A a' t) by (intros t; rewrite L; apply (I_num c sm a' I)).
   set (F := fun cand => match usage_mismatch cand m' (universe cand m') with None => Some cand | Some _ => None end).
   assert (Pk : first_some F (pre ++ a' :: post) = Some a').
@@ -149,18 +155,43 @@ Proof.
     - unfold F. rewrite (usage_mismatch_none a' m' _ Hu). reflexivity. }
   destruct (pre ++ a' :: post) as [|a1 rest] eqn:El; [destruct pre; discriminate|].
   fold F. rewrite Pk.
-  unfold check_after. rewrite (usage_mismatch_none a' m' _ Hu).
-  rewrite first_some_none.
-  2:{ intros t _. rewrite L, (nonneg_bool _ (use_nonneg sm t (I_good c sm a' I))). reflexivity. }
-  rewrite first_some_none.
-  2:{ intros t _. rewrite L, (within_ok c sm a' t LO I). reflexivity. }
-  reflexivity.
+  assert (Ck : check_after ck c a' m' o (o_cls x) = []).
+  { unfold check_after. rewrite (usage_mismatch_none a' m' _ Hu).
+    rewrite first_some_none.
+    2:{ intros t _. rewrite L, (nonneg_bool _ (use_nonneg sm t (I_good c sm a' I))). reflexivity. }
+    rewrite first_some_none.
+    2:{ intros t _. rewrite L, (within_ok c sm a' t LO I). reflexivity. }
+    assert (Pb : prio_check ck c a' m' o (o_cls x) = None).
+    { unfold prio_check. destruct (ck_prio ck) eqn:Kp; [|reflexivity]. destruct o; try reflexivity.
+      destruct (o_cls x =? 0) eqn:C0; [|reflexivity]. apply Z.eqb_eq in C0.
+      apply first_some_none. intros y Hy.
+      destruct (Hprio eq_refl t sz prio eq_refl C0 y Hy) as [E|E].
+      - rewrite E, Z.eqb_refl. reflexivity.
+      - apply Z.leb_le in E. rewrite E, orb_true_r. reflexivity. }
+    rewrite Pb. unfold cap_check.
+    destruct (ck_cap ck) eqn:Kc; [|reflexivity]. destruct o; try reflexivity. destruct ep as [ip|]; [|reflexivity].
+    destruct (o_cls x =? 0) eqn:C0; [|reflexivity]. apply Z.eqb_eq in C0.
+    rewrite (Hcap eq_refl i inb usefd ip eq_refl C0). reflexivity. }
+  rewrite Ck.
+  destruct (ck_just ck) eqn:Kj; [|reflexivity]. destruct (o_cls x =? 1) eqn:C1; [|reflexivity]. apply Z.eqb_eq in C1.
+  rewrite (Hjust eq_refl C1). reflexivity.
+Qed.
+
+Lemma mon_step_accepts_pick : forall c a a' m m' o x pre post,
+  cfg_ok c -> astep c a o (o_cls x) (o_aflag x) = pre ++ a' :: post ->
+  m' = apply_delta m (o_delta x) ->
+  (exists sm, Inv c sm a' /\ forall t, ostat m' t = use_of sm t) ->
+  (forall cand, In cand pre -> exists t, In t (map fst m') /\ ostat m' t <> usage_A cand t) ->
+  mon_step_gen ck_core c a m o x = inl (a', m').
+Proof.
+  intros c a a' m m' o x pre post LO Ha Em H1 H2.
+  apply (mon_step_accepts_ck ck_core c a a' m m' o x pre post LO Ha Em H1 H2); intros X; discriminate X.
 Qed.
 
 Theorem monitor_accepts2_from : forall c ops st a m i,
   cfg_ok c -> InvL c st a -> (forall t, ostat m t = use_of (scopes st) t) ->
   covered_run c a m (model_trace c st ops) = true ->
-  mon_run_gen false c a m i (model_trace c st ops) = [].
+  mon_run_gen ck_core c a m i (model_trace c st ops) = [].
 Proof.
   intros c ops. induction ops as [|o r IH]; intros st a m i LO IL L Cv; [reflexivity|].
   cbn [model_trace] in *. pose proof (astep_picked c st a o LO IL) as Hd.
@@ -185,7 +216,7 @@ Qed.
 Theorem monitor_accepts2 : forall c ops,
   config_wf c = true ->
   covered_run c astate0 [] (model_trace c (init_state c) ops) = true ->
-  mon_run_gen false c astate0 [] 0 (model_trace c (init_state c) ops) = [].
+  mon_run_gen ck_core c astate0 [] 0 (model_trace c (init_state c) ops) = [].
 Proof.
   intros c ops W Cv. pose proof (config_wf_ok c W) as LO.
   apply (monitor_accepts2_from c ops (init_state c) astate0 [] 0 LO); try assumption.
